@@ -27,6 +27,13 @@ def init_env():
     return _ENV
 
 
+class _SilentLog:
+    """Swallows the loader's diagnostics (the verdict is the returned flag)."""
+
+    def __getattr__(self, name):
+        return lambda *a, **k: None
+
+
 def load(text):
     return init_env()["Parsers"].get_yaml_editor().load(text)
 
@@ -38,7 +45,7 @@ def dump_reload(data):
     s = io.StringIO()
     E["Parsers"].get_yaml_editor().dump(data, s)
     text = s.getvalue()
-    (doc, ok) = E["Parsers"].get_yaml_data(E["Parsers"].get_yaml_editor(), E["log"], text, literal=True)
+    (doc, ok) = E["Parsers"].get_yaml_data(E["Parsers"].get_yaml_editor(), _SilentLog(), text, literal=True)
     return ok, doc, text
 
 
